@@ -69,4 +69,16 @@ TEXT = {
         "level_note": "As C01; caller-supplied `state` hints must be truthful (checked at every call site in the extracted code).",
         "design_ref": "DESIGN.md §7 C03",
     },
+    "C18": {
+        "technique": "Verus contracts on set_order / set_order_clone (nine-row table), every From impl and every Number operator arm; refusal copies verified against `ensures false`",
+        "level_text": "Proof: raising a float attaches exactly the requested (de-duplicated) names with unit sensitivity, raising Dual to Dual2 adds a zero Hessian, lowering keeps names/value/gradient, lowering to float returns the value (set_order, set_order_clone and all From impls, bodies extracted each run). Every arm of Number +,-,*,/,%,neg,pow,exp,log,norm_cdf,inv_norm_cdf,abs,==,partial_cmp,zero,one is proved to return the contained kind's verified result; the Dual/Dual2 mixed arms are proved unreachable for unmixed operands AND, in a second verified copy, proved to be the only outcome for mixed operands (no path returns a value).",
+        "level_note": "As C01; comparison trait bodies verified as free functions; Sum for Number and the minor Signed methods are uncovered (listed in the evidence).",
+        "design_ref": "DESIGN.md §7 C18",
+    },
+    "C19": {
+        "technique": "Verus contracts on partial_cmp (six positions + Number), abs, the six remainder bodies, Sum::sum, zero/one/is_zero; neutrality lemmas over the operator contracts",
+        "level_text": "Proof: comparisons return the float comparison of the values; abs keeps the view for positive and negates value and every derivative for negative values; a % b equals a - trunc(a/b)*b in value, gradient and Hessian for all operand layouts and float mixes; Sum::sum is the left fold of the verified + from the empty-name zero; zero/one are constants with no variables and are neutral for + and * on views (lemmas).",
+        "level_note": "As C01; trunc uninterpreted; fold specified eagerly.",
+        "design_ref": "DESIGN.md §7 C19",
+    },
 }
